@@ -4730,8 +4730,13 @@ class TLSConnection(TLSRecordLayer):
                                  settings.pskConfigs if
                                  i[0] in client_identities]
                     if psks_prfs:
-                        ciphers = CipherSuite.filter_for_prfs(ciphers,
-                                                              psks_prfs)
+                        # use a PSK only when a cipher suite with its hash
+                        # is on offer, otherwise do a certificate handshake
+                        psk_ciphers = CipherSuite.filter_for_prfs(ciphers,
+                                                                  psks_prfs)
+                        if any(i in client_hello.cipher_suites
+                               for i in psk_ciphers):
+                            ciphers = psk_ciphers
                 for cipher in ciphers:
                     # select first mutually supported
                     if cipher in client_hello.cipher_suites:
